@@ -92,6 +92,13 @@ CELER_FUNCTION size_type UniformGrid::find(value_type value) const
 {
     CELER_EXPECT(value >= this->front() && value < this->back());
     auto bin = static_cast<size_type>((value - data_.front) / data_.delta);
+    if (bin >= data_.size - 1)
+    {
+        // Roundoff in the subtraction and division can push a value just
+        // below the final grid point into the nonexistent bin that starts
+        // there: it belongs to the last bin
+        bin = data_.size - 2;
+    }
     CELER_ENSURE(bin + 1 < this->size());
     return bin;
 }
